@@ -32,6 +32,7 @@ GJwt == "urn:ietf:params:oauth:grant-type:jwt-bearer"
 AllGrants == {"authorization_code", "refresh_token", "implicit", "password", "client_credentials", GDevice, GJwt}
 RedirectOf(c) == CASE c = "A" -> "https://a.example/cb" [] c = "B" -> "https://b.example/cb" [] OTHER -> "https://p.example/cb"
 PushedState == "state-0123456789-pushed"
+PushedNonce == "nonce-0123456789"
 Subject == "peter"
 
 InitReg == [c \in Clients |-> [scopes |-> AllScopes, aud |-> AllAud, grants |-> AllGrants]]
@@ -295,8 +296,9 @@ DoPassword(st, op) ==
   ELSE IF ~(req \subseteq reg.scopes) THEN Fail(st, "invalid_scope", "scope_not_allowed")
   ELSE IF ~(aud \subseteq reg.aud) THEN Fail(st, "invalid_request", "aud_not_allowed")
   ELSE IF op.user # "ok" THEN Fail(st, "invalid_grant", "bad_user_credentials")
-  ELSE LET withRT == RScopes(st) = {} \/ req \cap RScopes(st) # {}
-           np == NewPair(st, rid, op.client, req, req, aud, "uuid", withRT, 0)
+  ELSE LET granted == IF "grant" \in DOMAIN op THEN Range(op.grant) \cap req ELSE req     \* what the application grants of the request
+           withRT == RScopes(st) = {} \/ granted \cap RScopes(st) # {}
+           np == NewPair(st, rid, op.client, req, granted, aud, "uuid", withRT, 0)
        IN Ret([st EXCEPT !.nrid = rid, !.S = np.S, !.nep = @ + 1],
               [Out0 EXCEPT !.at = np.at, !.rt = np.rt, !.expin = st.cfg.l_at])
 
@@ -366,7 +368,9 @@ DoDevStart(st, op) ==
 
 (* "accept_fresh": the consent application approves and REPLACES the session of the stored request by a fresh one
    (no expiry recorded in it): the lifetime of the codes must not depend on what the session remembers *)
-Accepts(dec) == dec \in {"accept", "accept_fresh"}
+\* "accept_user_later": the consent application approves and extends the expiry of the USER code in the session; the
+\* device code expires when it always did
+Accepts(dec) == dec \in {"accept", "accept_fresh", "accept_user_later"}
 DoDevDecide(st, op) ==
   IF ~Has(st.S.dev, op.dev) THEN Fail(st, "not_found", "dev_unknown")
   ELSE LET row == st.S.dev[op.dev] IN
@@ -443,6 +447,7 @@ DoUsePar(st, op) ==
            note == RedirectOf(row.client) \o "|" \o RTypeSorted(row.rtype) \o "|" \o JoinScopes(row.req) \o "|"
                    \o PushedState \o "|" \o JoinAud(row.aud) \o "|"
                    \o (IF row.rtype = "code" THEN "query" ELSE "fragment")     \* no mode was pushed: the default of the pushed response type
+                   \o "|" \o PushedNonce \o "|"                                 \* the raw form is the pushed one: its nonce, no PKCE challenge
        IN Ret(r.st, [r.out EXCEPT !.note = note])
 
 (* ======================================================================== *)
